@@ -235,6 +235,8 @@ type Ctx struct {
 	Trace    bool
 	Notes    []string
 	curState *State
+	callsAtReturn bool
+	curRet Value
 	InitGlobals bool
 	MapReverse bool
 	replayPtrs map[uint64]*Object
